@@ -173,6 +173,8 @@ def match_tail(tail, pattern, L, O, tailvals):
             elif t.kind == "num":
                 if t.text != str(want):
                     return "slot"
+                if tailvals is not None and item != ("ZERO",):
+                    return "inline_in_parameterised"  # "both inline and in the parameter list": with a parameterizer the value travels in the list
             else:
                 return "slot"
             i += 1
